@@ -141,13 +141,13 @@ def builder_for(op):
         key = json.dumps(spec, sort_keys=True)
         if key not in ENV_BUILDERS:
             from vlib import envdef
-            ENV_BUILDERS[key] = envdef.Builder(spec)
+            ENV_BUILDERS[key] = envdef.builder(spec)
         b = ENV_BUILDERS[key]
         if fault and fault['kind'] == 'func':
             # a builder of its own (threads may build both at once) over
             # the same argument objects
             from vlib import envdef
-            fb = envdef.Builder(spec, fault['at'] % 2,
+            fb = envdef.builder(spec, fault['at'] % 2,
                                 EXC[fault['exc']]('injected'))
             fb.objs = b.objs
             return fb
@@ -177,6 +177,36 @@ def builder_for(op):
                 U['Out'].kr(0, U['SinOsc'].kr(1e39, 0))
         b.body = body
     return b
+
+
+class YieldingLock:
+    """Stands in for main._def_build_lock during thread barriers: the
+    thread that releases the lock pauses right afterwards, so that a waiting
+    thread gets to run inside its build while the first one executes
+    whatever it does after the release (scheduling help only: same lock,
+    same exclusion)."""
+
+    def __init__(self, lock, pause):
+        self._lock = lock
+        self._pause = pause
+
+    def acquire(self, *a, **k):
+        return self._lock.acquire(*a, **k)
+
+    def release(self):
+        self._lock.release()
+        import time
+        time.sleep(self._pause)
+
+    def locked(self):
+        return self._lock.locked()
+
+    def __enter__(self):
+        self._lock.acquire()
+        return self
+
+    def __exit__(self, *exc):
+        self.release()
 
 
 def residue(v, where):
@@ -225,7 +255,11 @@ def run_history(case, v):
         if op['op'] == 'build':
             key = json.dumps(op['spec'], sort_keys=True)
             fault = op.get('fault')
-            if op['gen'] == 'env':
+            if op['gen'] == 'env' and 'zeros' in op['spec']:
+                labels.add('outdef_' + op['spec']['cls'])
+                if key in seen_specs:
+                    labels.add('envdef_same_objects_again')
+            elif op['gen'] == 'env':
                 e = op['spec']['env']
                 labels.add('envdef_' + e.get('ctor', 'Env'))
                 if key in seen_specs:
@@ -308,6 +342,11 @@ def run_history(case, v):
             ts = [threading.Thread(target=work, args=(k,))
                   for k in range(len(specs))]
             sys.setswitchinterval(1e-6)
+            real_lock = main._def_build_lock
+            if op.get('pause', 1):
+                main._def_build_lock = YieldingLock(
+                    real_lock, 0.0002 * op.get('pause', 1))
+                labels.add('lock_release_pause')
             try:
                 for t in ts:
                     t.start()
@@ -315,6 +354,7 @@ def run_history(case, v):
                     t.join()
             finally:
                 sys.setswitchinterval(old)
+                main._def_build_lock = real_lock
             residue(v, where)
             for k, sp in enumerate(specs):
                 kind, val = results[k]
@@ -385,6 +425,7 @@ def history_strategy(max_steps=10):
         st.just({'op': 'outside'}),
         st.fixed_dictionaries({
             'op': st.just('threads'),
+            'pause': st.sampled_from([0, 1, 1, 3]),
             'specs': st.lists(st.one_of(b, b, reader), min_size=2,
                               max_size=6)}))
     # repeat an earlier build now and then (same spec twice)
@@ -405,8 +446,15 @@ def env_history():
     every envelope constructor, each definition built two or three times
     (a failing build of the same function may come in between)."""
     from checks import c19
+    zero = st.sampled_from([0, 0.0])
+    zeros = st.one_of(st.lists(zero, min_size=1, max_size=3),
+                      st.lists(st.lists(zero, min_size=1, max_size=2),
+                               min_size=1, max_size=2))
+    outs = st.fixed_dictionaries({
+        'cls': st.sampled_from(['Out', 'ReplaceOut', 'OffsetOut', 'XOut']),
+        'bus': st.integers(0, 8), 'zeros': zeros})
     one = st.tuples(st.one_of(c19.ctor_case(), c19.ctor_case(),
-                              c19.env_spec(plain=True)),
+                              c19.env_spec(plain=True), outs),
                     st.sampled_from(['kr', 'ar']),
                     st.sampled_from([None, None, 'ValueError', 'CustomBase']),
                     st.integers(2, 3))
@@ -414,7 +462,10 @@ def env_history():
     def mk(items):
         ops = []
         for n, (env, rate, exc, times) in enumerate(items):
-            spec = {'name': f'envdef{n}', 'rate': rate, 'env': env}
+            if 'zeros' in env:
+                spec = dict(env, name=f'outdef{n}')
+            else:
+                spec = {'name': f'envdef{n}', 'rate': rate, 'env': env}
             b = {'op': 'build', 'gen': 'env', 'spec': spec, 'fault': None}
             ops.append(b)
             if exc:
